@@ -218,9 +218,9 @@ def parse_constraint(data, repository_name, lockfile, wheel_dirs):
                 repository, _, path = str(lockfile).partition("//")
                 lockfile_dir, _, _ = path.partition(":")
 
-                new_package = "/".join(lockfile_dir.split("/")[:-url_parents])
+                split = [part for part in url.split("/") if part not in ("..", ".")]
+                new_package = "/".join(lockfile_dir.split("/")[:-url_parents] + split[:-2])
 
-                split = url.split("/")
                 wheel = "{}/{}".format(split[-2], split[-1])
 
                 whl = "{}//{}:{}".format(repository, new_package, wheel)
